@@ -189,9 +189,9 @@ RedefLawsHold ==
      RedefLaws(Stage(orig, hist, Len(hist) - 1), sig, call)
 
 (* The same laws for EVERY call shape of the bounds at once, evaluated on the history states  *)
-(* (behaviours of OnlyHists below: define, then SetDefaults).  With MachineIsFunction on     *)
-(* and LawsHold for all signatures of the bounds and Fresh(sig) \in Signatures(N) this covers  *)
-(* the large bounds without exploring the phase machine once more per history; the phase       *)
+(* (behaviours of OnlyHists below: define, then SetDefaults).  With MachineIsFunction and     *)
+(* LawsHold for all signatures of the bounds and Fresh(sig) \in Signatures(N) this covers the  *)
+(* large bounds without exploring the phase machine once more per history; the phase          *)
 (* machine WITH histories (Return / SetDefaults interleaved with calls) is explored at smaller *)
 (* bounds.                                                                                     *)
 HistLawsAllCalls ==
